@@ -1,10 +1,427 @@
 import EpModel.Driver.Util
-/- part of the `enc.*` family (stub; filled in by the owner). -/
+import EpModel.Model.Codec.NetIpv6
+import EpModel.Model.Codec.NetIpv6Frag
+import EpModel.Model.Codec.NetIpv4
+import EpModel.Model.Codec.NetAuth
+import EpModel.Model.Codec.NetRawExt
+import EpModel.Model.Codec.NetIpv4Exts
+/- network-layer part of the `enc.*` family (C08): Ipv6Header, Ipv6FragmentHeader, Ipv4Header,
+   IpAuthHeader, Ipv6RawExtHeader and their slice types.
+
+   ops per type t ∈ {ipv6, ipv6frag, ipv4, auth, rawext}:
+     enc.t.to_bytes <fields>         value via the checked constructors → all serialisers, header_len
+     enc.t.rt <fields> <tail>        from_slice(to_bytes(v) ++ tail)
+     enc.t.from_slice <hex>          all fields + rest window
+     enc.t.redec <hex>               from_slice, to_bytes of the result, from_slice(bytes ++ rest)
+     enc.tslice.from_slice <hex>     every accessor of the slice type + to_header
+   composite ipv4exts (optional authentication header behind an IPv4 header):
+     enc.ipv4exts.write <start> (none | <auth fields>)      write, header_len, next_header
+     enc.ipv4exts.rt <start> (none | <auth fields>) <tail>  from_slice(start, write(v) ++ tail)
+     enc.ipv4exts.from_slice / redec / enc.ipv4extsslice.from_slice <start> <hex> -/
 namespace EpModel.Driver.EncNet
-open EpModel EpModel.Driver
+open EpModel EpModel.Driver EpModel.CodecNet
+
+def argLt (s : String) (bound : Nat) : Option Nat := do
+  let n ← argNat s
+  if n < bound then some n else none
+
+def argBool (s : String) : Option Bool :=
+  if s == "0" then some false else if s == "1" then some true else none
+
+def argHexLen (s : String) (len : Nat) : Option Bytes := do
+  let b ← argHex s
+  if b.length = len then some b else none
+
+def b01 (b : Bool) : String := if b then "1" else "0"
+
+def showLenErr (e : LenError) : String :=
+  s!"len(req={e.required},len={e.len},src={e.src.name},layer={e.layer.name},off={e.off})"
+
+def showTooBig (e : ValueTooBig) : String :=
+  s!"err(toobig(actual={e.actual},max={e.maxAllowed},type={e.ty.name}))"
+
+def sameOr (ref x : Bytes) : String := if x = ref then "same" else hexOfBytes x
+
+/-- window of `rest` behind the consumed prefix of `b` -/
+def restWin (b rest : Bytes) : String := showWin (b.length - rest.length) rest.length
+
+/-! ### Ipv6Header -/
+
+def ipv6Fields (h : Ipv6Header) : String :=
+  s!"tc={h.trafficClass},fl={h.flowLabel},plen={h.payloadLength},nh={h.nextHeader},hop={h.hopLimit},src={hexOfBytes h.source},dst={hexOfBytes h.destination}"
+
+def ipv6Err : Ipv6Err → String
+  | .len e => s!"err({showLenErr e})"
+  | .unexpectedVersion v => s!"err(version({v}))"
+
+def ipv6Value (a : List String) : Option (Except String Ipv6Header) :=
+  match a with
+  | [tc, fl, plen, nh, hop, src, dst] => do
+    let tc ← argLt tc 256; let fl ← argLt fl 4294967296; let plen ← argLt plen 65536
+    let nh ← argLt nh 256; let hop ← argLt hop 256
+    let src ← argHexLen src 16; let dst ← argHexLen dst 16
+    match Ipv6FlowLabel.tryNew fl with
+    | .error e => pure (.error (showTooBig e))
+    | .ok fl =>
+      pure (.ok {
+        trafficClass := tc, flowLabel := fl, payloadLength := plen,
+        nextHeader := nh, hopLimit := hop, source := src, destination := dst })
+  | _ => none
+
+def ipv6Dec (b : Bytes) : String :=
+  match Ipv6Header.fromSlice b with
+  | .error e => ipv6Err e
+  | .ok (h, rest) => s!"ok({ipv6Fields h},rest={restWin b rest})"
+
+def ipv6Ops (op : String) (args : List String) : Option String :=
+  match op, args with
+  | "enc.ipv6.to_bytes", a => do
+    match ← ipv6Value a with
+    | .error e => pure e
+    | .ok h =>
+      let bytes := h.toBytes
+      pure s!"ok(bytes={hexOfBytes bytes},write={sameOr bytes h.writeOut},len={h.headerLen})"
+  | "enc.ipv6.rt", a => do
+    let tail ← argHex (← a.getLast?)
+    match ← ipv6Value a.dropLast with
+    | .error e => pure e
+    | .ok h => pure (ipv6Dec (h.toBytes ++ tail))
+  | "enc.ipv6.from_slice", [h] => do pure (ipv6Dec (← argHex h))
+  | "enc.ipv6.redec", [h] => do
+    let b ← argHex h
+    match Ipv6Header.fromSlice b with
+    | .error e => pure (ipv6Err e)
+    | .ok (h, rest) =>
+      let again := ipv6Dec (h.toBytes ++ rest)
+      pure s!"ok(bytes={hexOfBytes h.toBytes},again={again})"
+  | "enc.ipv6slice.from_slice", [h] => do
+    let b ← argHex h
+    match Ipv6HeaderSlice.fromSlice b with
+    | .error e => pure (ipv6Err e)
+    | .ok s =>
+      pure s!"ok(slice={showWin 0 s.slice.length},version={s.version},tc={s.trafficClass},ecn={s.ecn},dscp={s.dscp},fl={s.flowLabel},plen={s.payloadLength},nh={s.nextHeader},hop={s.hopLimit},src={hexOfBytes s.source},dst={hexOfBytes s.destination},header_len={s.headerLen},hdr=({ipv6Fields s.toHeader}))"
+  | _, _ => none
+
+/-! ### Ipv6FragmentHeader -/
+
+def fragFields (h : Ipv6FragmentHeader) : String :=
+  s!"nh={h.nextHeader},fo={h.fragmentOffset},mf={b01 h.moreFragments},id={h.identification}"
+
+def fragValue (a : List String) : Option (Except String Ipv6FragmentHeader) :=
+  match a with
+  | [nh, fo, mf, id] => do
+    let nh ← argLt nh 256; let fo ← argLt fo 65536; let mf ← argBool mf
+    let id ← argLt id 4294967296
+    match IpFragOffset.tryNew fo with
+    | .error e => pure (.error (showTooBig e))
+    | .ok fo =>
+      pure (.ok {
+        nextHeader := nh, fragmentOffset := fo, moreFragments := mf, identification := id })
+  | _ => none
+
+def fragDec (b : Bytes) : String :=
+  match Ipv6FragmentHeader.fromSlice b with
+  | .error e => s!"err({showLenErr e})"
+  | .ok (h, rest) => s!"ok({fragFields h},rest={restWin b rest})"
+
+def fragOps (op : String) (args : List String) : Option String :=
+  match op, args with
+  | "enc.ipv6frag.to_bytes", a => do
+    match ← fragValue a with
+    | .error e => pure e
+    | .ok h =>
+      let bytes := h.toBytes
+      pure s!"ok(bytes={hexOfBytes bytes},write={sameOr bytes h.writeOut},len={h.headerLen},frag={b01 h.isFragmentingPayload})"
+  | "enc.ipv6frag.rt", a => do
+    let tail ← argHex (← a.getLast?)
+    match ← fragValue a.dropLast with
+    | .error e => pure e
+    | .ok h => pure (fragDec (h.toBytes ++ tail))
+  | "enc.ipv6frag.from_slice", [h] => do pure (fragDec (← argHex h))
+  | "enc.ipv6frag.redec", [h] => do
+    let b ← argHex h
+    match Ipv6FragmentHeader.fromSlice b with
+    | .error e => pure s!"err({showLenErr e})"
+    | .ok (h, rest) =>
+      let again := fragDec (h.toBytes ++ rest)
+      pure s!"ok(bytes={hexOfBytes h.toBytes},again={again})"
+  | "enc.ipv6fragslice.from_slice", [h] => do
+    let b ← argHex h
+    match Ipv6FragmentHeaderSlice.fromSlice b with
+    | .error e => pure s!"err({showLenErr e})"
+    | .ok s =>
+      pure s!"ok(slice={showWin 0 s.slice.length},nh={s.nextHeader},fo={s.fragmentOffset},mf={b01 s.moreFragments},id={s.identification},frag={b01 s.isFragmentingPayload},hdr=({fragFields s.toHeader}))"
+  | _, _ => none
+
+/-! ### Ipv4Header -/
+
+def ipv4Fields (h : Ipv4Header) : String :=
+  s!"dscp={h.dscp},ecn={h.ecn},tlen={h.totalLen},id={h.identification},df={b01 h.dontFragment},mf={b01 h.moreFragments},fo={h.fragmentOffset},ttl={h.timeToLive},proto={h.protocol},ck={h.headerChecksum},src={hexOfBytes h.source},dst={hexOfBytes h.destination},opts={hexOfBytes h.options}"
+
+def ipv4Err : Ipv4Err → String
+  | .len e => s!"err({showLenErr e})"
+  | .unexpectedVersion v => s!"err(version({v}))"
+  | .headerLengthSmallerThanHeader i => s!"err(ihl({i}))"
+
+def ipv4Value (a : List String) : Option (Except String Ipv4Header) :=
+  match a with
+  | [dscp, ecn, tlen, id, df, mf, fo, ttl, proto, ck, src, dst, opts] => do
+    let dscp ← argLt dscp 256; let ecn ← argLt ecn 256; let tlen ← argLt tlen 65536
+    let id ← argLt id 65536; let df ← argBool df; let mf ← argBool mf; let fo ← argLt fo 65536
+    let ttl ← argLt ttl 256; let proto ← argLt proto 256; let ck ← argLt ck 65536
+    let src ← argHexLen src 4; let dst ← argHexLen dst 4; let opts ← argHex opts
+    match IpDscp.tryNew dscp with
+    | .error e => pure (.error (showTooBig e))
+    | .ok dscp =>
+    match IpEcn.tryNew ecn with
+    | .error e => pure (.error (showTooBig e))
+    | .ok ecn =>
+    match IpFragOffset.tryNew fo with
+    | .error e => pure (.error (showTooBig e))
+    | .ok fo =>
+    match Ipv4Options.tryFrom opts with
+    | .error n => pure (.error s!"err(badoptlen({n}))")
+    | .ok opts =>
+      pure (.ok {
+        dscp := dscp, ecn := ecn, totalLen := tlen, identification := id,
+        dontFragment := df, moreFragments := mf, fragmentOffset := fo,
+        timeToLive := ttl, protocol := proto, headerChecksum := ck, source := src,
+        destination := dst, options := opts })
+  | _ => none
+
+def ipv4Dec (b : Bytes) : String :=
+  match Ipv4Header.fromSlice b with
+  | .error e => ipv4Err e
+  | .ok (h, rest) => s!"ok({ipv4Fields h},rest={restWin b rest})"
+
+def ipv4Ops (op : String) (args : List String) : Option String :=
+  match op, args with
+  | "enc.ipv4.to_bytes", a => do
+    match ← ipv4Value a with
+    | .error e => pure e
+    | .ok h =>
+      let bytes := h.toBytes
+      pure s!"ok(bytes={hexOfBytes bytes},write={sameOr bytes h.writeOut},write_raw={sameOr bytes h.writeRaw},len={h.headerLen},ihl={h.ihl},calc={h.calcHeaderChecksum})"
+  | "enc.ipv4.rt", a => do
+    let tail ← argHex (← a.getLast?)
+    match ← ipv4Value a.dropLast with
+    | .error e => pure e
+    | .ok h => pure (ipv4Dec (h.toBytes ++ tail))
+  | "enc.ipv4.from_slice", [h] => do pure (ipv4Dec (← argHex h))
+  | "enc.ipv4.redec", [h] => do
+    let b ← argHex h
+    match Ipv4Header.fromSlice b with
+    | .error e => pure (ipv4Err e)
+    | .ok (h, rest) =>
+      let again := ipv4Dec (h.toBytes ++ rest)
+      pure s!"ok(bytes={hexOfBytes h.toBytes},again={again})"
+  | "enc.ipv4slice.from_slice", [h] => do
+    let b ← argHex h
+    match Ipv4HeaderSlice.fromSlice b with
+    | .error e => pure (ipv4Err e)
+    | .ok s =>
+      let pl := match s.payloadLen with
+        | .ok n => s!"ok({n})"
+        | .error e => s!"err({showLenErr e})"
+      pure s!"ok(slice={showWin 0 s.slice.length},version={s.version},ihl={s.ihl},dscp={s.dcp},ecn={s.ecn},tlen={s.totalLen},plen={pl},id={s.identification},df={b01 s.dontFragment},mf={b01 s.moreFragments},fo={s.fragmentsOffset},ttl={s.ttl},proto={s.protocol},ck={s.headerChecksum},src={hexOfBytes s.source},dst={hexOfBytes s.destination},opts={showWin 20 s.options.length},frag={b01 s.isFragmentingPayload},hdr=({ipv4Fields s.toHeader}))"
+  | _, _ => none
+
+/-! ### IpAuthHeader -/
+
+def authFields (h : IpAuthHeader) : String :=
+  s!"nh={h.nextHeader},spi={h.spi},seq={h.sequenceNumber},icv={hexOfBytes h.rawIcv}"
+
+def authErr : IpAuthErr → String
+  | .len e => s!"err({showLenErr e})"
+  | .zeroPayloadLen => "err(zeropayloadlen)"
+  | .panicUnwrap => "panic"
+
+def authValue (a : List String) : Option (Except String IpAuthHeader) :=
+  match a with
+  | [nh, spi, seq, icv] => do
+    let nh ← argLt nh 256; let spi ← argLt spi 4294967296; let seq ← argLt seq 4294967296
+    let icv ← argHex icv
+    match IpAuthHeader.new nh spi seq icv with
+    | .error (.tooBig n) => pure (.error s!"err(icv(TooBig({n})))")
+    | .error (.unaligned n) => pure (.error s!"err(icv(Unaligned({n})))")
+    | .ok h => pure (.ok h)
+  | _ => none
+
+def authDec (b : Bytes) : String :=
+  match IpAuthHeader.fromSlice b with
+  | .error e => authErr e
+  | .ok (h, rest) => s!"ok({authFields h},rest={restWin b rest})"
+
+def authOps (op : String) (args : List String) : Option String :=
+  match op, args with
+  | "enc.auth.to_bytes", a => do
+    match ← authValue a with
+    | .error e => pure e
+    | .ok h =>
+      let bytes := h.toBytes
+      pure s!"ok(bytes={hexOfBytes bytes},write={sameOr bytes h.writeOut},len={h.headerLen},icv={hexOfBytes h.rawIcvAcc})"
+  | "enc.auth.rt", a => do
+    let tail ← argHex (← a.getLast?)
+    match ← authValue a.dropLast with
+    | .error e => pure e
+    | .ok h => pure (authDec (h.toBytes ++ tail))
+  | "enc.auth.from_slice", [h] => do pure (authDec (← argHex h))
+  | "enc.auth.redec", [h] => do
+    let b ← argHex h
+    match IpAuthHeader.fromSlice b with
+    | .error e => pure (authErr e)
+    | .ok (h, rest) =>
+      let again := authDec (h.toBytes ++ rest)
+      pure s!"ok(bytes={hexOfBytes h.toBytes},again={again})"
+  | "enc.authslice.from_slice", [h] => do
+    let b ← argHex h
+    match IpAuthHeaderSlice.fromSlice b with
+    | .error e => pure (authErr e)
+    | .ok s =>
+      let hdr := match s.toHeader with
+        | some h => s!"({authFields h})"
+        | none => "panic"
+      pure s!"ok(slice={showWin 0 s.slice.length},nh={s.nextHeader},spi={s.spi},seq={s.sequenceNumber},icv={showWin 12 s.rawIcv.length},hdr={hdr})"
+  | _, _ => none
+
+/-! ### Ipv6RawExtHeader -/
+
+def rawExtFields (h : Ipv6RawExtHeader) : String :=
+  s!"nh={h.nextHeader},payload={hexOfBytes h.payload}"
+
+def rawExtErr : RawExtErr → String
+  | .len e => s!"err({showLenErr e})"
+  | .panicUnwrap => "panic"
+
+def rawExtValue (a : List String) : Option (Except String Ipv6RawExtHeader) :=
+  match a with
+  | [nh, payload] => do
+    let nh ← argLt nh 256; let payload ← argHex payload
+    match Ipv6RawExtHeader.newRaw nh payload with
+    | .error (.tooSmall n) => pure (.error s!"err(extlen(TooSmall({n})))")
+    | .error (.tooBig n) => pure (.error s!"err(extlen(TooBig({n})))")
+    | .error (.unaligned n) => pure (.error s!"err(extlen(Unaligned({n})))")
+    | .ok h => pure (.ok h)
+  | _ => none
+
+def rawExtDec (b : Bytes) : String :=
+  match Ipv6RawExtHeader.fromSlice b with
+  | .error e => rawExtErr e
+  | .ok (h, rest) => s!"ok({rawExtFields h},rest={restWin b rest})"
+
+def rawExtOps (op : String) (args : List String) : Option String :=
+  match op, args with
+  | "enc.rawext.to_bytes", a => do
+    match ← rawExtValue a with
+    | .error e => pure e
+    | .ok h =>
+      let bytes := h.toBytes
+      pure s!"ok(bytes={hexOfBytes bytes},write={sameOr bytes h.writeOut},len={h.headerLen},payload={hexOfBytes h.payloadAcc})"
+  | "enc.rawext.rt", a => do
+    let tail ← argHex (← a.getLast?)
+    match ← rawExtValue a.dropLast with
+    | .error e => pure e
+    | .ok h => pure (rawExtDec (h.toBytes ++ tail))
+  | "enc.rawext.from_slice", [h] => do pure (rawExtDec (← argHex h))
+  | "enc.rawext.redec", [h] => do
+    let b ← argHex h
+    match Ipv6RawExtHeader.fromSlice b with
+    | .error e => pure (rawExtErr e)
+    | .ok (h, rest) =>
+      let again := rawExtDec (h.toBytes ++ rest)
+      pure s!"ok(bytes={hexOfBytes h.toBytes},again={again})"
+  | "enc.rawextslice.from_slice", [h] => do
+    let b ← argHex h
+    match Ipv6RawExtHeaderSlice.fromSlice b with
+    | .error e => pure (rawExtErr e)
+    | .ok s =>
+      let hdr := match s.toHeader with
+        | some h => s!"({rawExtFields h})"
+        | none => "panic"
+      pure s!"ok(slice={showWin 0 s.slice.length},nh={s.nextHeader},payload={showWin 2 s.payload.length},hdr={hdr})"
+  | _, _ => none
+
+/-! ### Ipv4Extensions -/
+
+def extsFields (e : Ipv4Extensions) : String :=
+  match e.auth with
+  | none => "auth=none"
+  | some h => s!"auth=({authFields h})"
+
+def extsWalkErr : Ipv4ExtsWalkError → String
+  | .extNotReferenced m => s!"err(notreferenced({m}))"
+
+def extsValue (a : List String) : Option (Except String Ipv4Extensions) :=
+  match a with
+  | ["none"] => some (.ok { auth := none })
+  | a => do
+    match ← authValue a with
+    | .error e => pure (.error e)
+    | .ok h => pure (.ok { auth := some h })
+
+def extsDec (start : Nat) (b : Bytes) : String :=
+  match Ipv4Extensions.fromSlice start b with
+  | .error e => authErr e
+  | .ok (e, next, rest) => s!"ok({extsFields e},next={next},rest={restWin b rest})"
+
+def extsOps (op : String) (args : List String) : Option String :=
+  match op, args with
+  | "enc.ipv4exts.write", start :: a => do
+    let start ← argLt start 256
+    match ← extsValue a with
+    | .error e => pure e
+    | .ok e =>
+      let next := match e.nextHeader start with
+        | .ok n => s!"ok({n})"
+        | .error x => extsWalkErr x
+      match e.writeOut start with
+      | .error x => pure s!"{extsWalkErr x},len={e.headerLen},next={next}"
+      | .ok bytes => pure s!"ok(bytes={hexOfBytes bytes},len={e.headerLen},next={next})"
+  | "enc.ipv4exts.rt", start :: a => do
+    let start ← argLt start 256
+    let tail ← argHex (← a.getLast?)
+    match ← extsValue a.dropLast with
+    | .error e => pure e
+    | .ok e =>
+      match e.writeOut start with
+      | .error x => pure (extsWalkErr x)
+      | .ok bytes => pure (extsDec start (bytes ++ tail))
+  | "enc.ipv4exts.from_slice", [start, h] => do
+    pure (extsDec (← argLt start 256) (← argHex h))
+  | "enc.ipv4exts.redec", [start, h] => do
+    let start ← argLt start 256
+    let b ← argHex h
+    match Ipv4Extensions.fromSlice start b with
+    | .error e => pure (authErr e)
+    | .ok (e, _, rest) =>
+      match e.writeOut start with
+      | .error x => pure (extsWalkErr x)
+      | .ok bytes =>
+        let again := extsDec start (bytes ++ rest)
+        pure s!"ok(bytes={hexOfBytes bytes},again={again})"
+  | "enc.ipv4extsslice.from_slice", [start, h] => do
+    let start ← argLt start 256
+    let b ← argHex h
+    match Ipv4ExtensionsSlice.fromSlice start b with
+    | .error e => pure (authErr e)
+    | .ok (s, next, rest) =>
+      let a := match s.auth with
+        | none => "none"
+        | some a => showWin 0 a.slice.length
+      let hdr := match s.toHeader with
+        | some e => s!"({extsFields e})"
+        | none => "panic"
+      pure s!"ok(auth={a},empty={b01 s.auth.isNone},next={next},rest={restWin b rest},hdr={hdr})"
+  | _, _ => none
 
 def run (op : String) (args : List String) : Option String :=
-  match op, args with
-  | _, _ => none
+  match op.splitOn "." with
+  | ["enc", "ipv4exts", _] | ["enc", "ipv4extsslice", _] => extsOps op args
+  | ["enc", "ipv6", _] | ["enc", "ipv6slice", _] => ipv6Ops op args
+  | ["enc", "ipv6frag", _] | ["enc", "ipv6fragslice", _] => fragOps op args
+  | ["enc", "ipv4", _] | ["enc", "ipv4slice", _] => ipv4Ops op args
+  | ["enc", "auth", _] | ["enc", "authslice", _] => authOps op args
+  | ["enc", "rawext", _] | ["enc", "rawextslice", _] => rawExtOps op args
+  | _ => none
 
 end EpModel.Driver.EncNet
